@@ -410,6 +410,7 @@ def rule_dangling_reference_members(rep, rid, idx, prefixes, floor=3):
              'no named object is constructed with a temporary (a value returned by a function) in that position and used afterwards -- the '
              'temporary dies at the end of the declaration and every later use reads freed memory', floor=floor)
     cap = {}
+    views = set()
     for qn, rec in idx.records.items():
         if not qn.startswith(tuple(prefixes)):
             continue
@@ -419,16 +420,24 @@ def rule_dangling_reference_members(rep, rid, idx, prefixes, floor=3):
             for ini in c.inits:
                 a = ini.get('anyInit') or {}
                 ft = (a.get('type') or {}).get('qualType', '')
-                if a.get('kind') != 'FieldDecl' or '&' not in ft or '&&' in ft or not children(ini):
+                is_view = bool(re.search(r'\b(basic_)?string_view\b|\bspan<', ft))
+                if a.get('kind') != 'FieldDecl' or not (('&' in ft and '&&' not in ft) or is_view) or not children(ini):
                     continue
                 e = strip(children(ini)[0])
                 while e.get('kind') in ('ImplicitCastExpr', 'ParenExpr') and children(e):
                     e = strip(children(e)[0])
+                if is_view and e.get('kind') == 'CXXMemberCallExpr' and callee_of(e)[3] is not None and 'string_view' in callee_of(e)[1]:
+                    # std::string -> std::string_view conversion operator applied to the parameter
+                    e = strip(callee_of(e)[3])
+                    while e.get('kind') in ('ImplicitCastExpr', 'ParenExpr') and children(e):
+                        e = strip(children(e)[0])
                 if e.get('kind') == 'DeclRefExpr' and (e.get('referencedDecl') or {}).get('kind') == 'ParmVarDecl':
                     pid = e['referencedDecl'].get('id')
                     for i, prm in enumerate(c.params):
-                        if prm.get('id') == pid and '&' in qt(prm):
+                        if prm.get('id') == pid and ('&' in qt(prm) or (is_view and re.search(r'string_view|span<', qt(prm)))):
                             cap.setdefault((qn, c.type.strip()), []).append((i, a.get('name')))
+                            if is_view:
+                                views.add((qn, i))
     if not cap:
         raise AnalysisBroken('no constructor stores a reference parameter in a reference member (confirmed: the location visitors do)')
     for f in idx.all_funcs():
@@ -441,6 +450,30 @@ def rule_dangling_reference_members(rep, rid, idx, prefixes, floor=3):
             for b in children(a):
                 parents[id(b)] = a
         for n in order:
+            if views and n.get('kind') == 'CallExpr' and callee_of(n)[1] in ('make_unique', 'make_shared'):
+                # an object on the heap outlives the full expression that creates it: a view member bound to a temporary string dangles
+                m_ = re.search(r'(?:unique_ptr|shared_ptr)<\s*(?:class |struct )?([\w:]+)', dqt(n) + ' ' + qt(n))
+                cls = None
+                if m_:
+                    tn = m_.group(1)
+                    cls = tn if tn in idx.records else idx._resolve_record_name(tn.split('::')[-1], f.cls or f.qname)
+                args = cast.call_args(n)
+                for (cq, ct), fields in cap.items():
+                    if cq != cls:
+                        continue
+                    for i, field in fields:
+                        if (cq, i) not in views or i >= len(args):
+                            continue
+                        a = args[i]
+                        while a.get('kind') in ('ImplicitCastExpr', 'ExprWithCleanups', 'CXXBindTemporaryExpr', 'ParenExpr') and children(a):
+                            a = children(a)[0]
+                        temp = a.get('kind') == 'MaterializeTemporaryExpr' and re.search(r'basic_string<|std::string\b|^string\b', qt(a) + ' ' + dqt(a)) \
+                            and not re.search(r'string_view', qt(a))
+                        rep.add(rid, '%s:%s.%s@%s' % (f.qname, cls.split('::')[-1], field, pos(n).split(':')[-1]), not temp, pos(n) + ' ' + f.qname,
+                                ('a %s is created on the heap with a temporary std::string for the view member %s: the string dies at the end of the '
+                                 'statement and every later read of the member reads freed memory (what it finds there differs from run to run)'
+                                 % (cls, field)) if temp else 'view member bound to a string that outlives the object', nontrivial=False)
+                continue
             if n.get('kind') not in ('CXXConstructExpr', 'CXXTemporaryObjectExpr'):
                 continue
             tn = re.sub(r'^(const )?(class |struct )?', '', qt(n)).strip()
@@ -728,9 +761,14 @@ def lexer_terminates(idx, ns, first_bytes, entry='getNextToken', budget=40):
                     break
             else:
                 problems.append((c, 'no END_OF_FILE token after the input is exhausted'))
+            ub_ = [u for u in I.ub if 'ctype-out-of-range' not in str(u)]   # <cctype> on plain char: not claimed (DESIGN 10.1)
+            if ub_:
+                problems.append((c, 'undefined behaviour while lexing: %s' % '; '.join(str(u) for u in ub_[:2])))
         except Thrown as e:
             if e.what == 'READ-BUDGET':
                 problems.append((c, 'keeps reading after end of input: a loop never sees EOF'))
+            elif [u for u in I.ub if 'ctype-out-of-range' not in str(u)]:
+                problems.append((c, 'undefined behaviour while lexing: %s' % '; '.join(str(u) for u in I.ub if 'ctype-out-of-range' not in str(u))))
             # diagnostics (TokenError etc.) are clean rejections
         except AnalysisBroken as e:
             if 'abstract iterations' in str(e):
@@ -1010,6 +1048,8 @@ def rule_recursion(rep, rid, tu, tree_base=None, min_reachable=40):
             rep.add(rid, key, not unb, c['where'], c['detail'] + ('' if not unb else
                     '; but the depth of the tree is not bounded: the recursion through %s has no depth bound' % ', '.join(u['names'][0] for u in unb)),
                     data={'functions': c['names']})
+        elif c['kind'] == 'undecided':
+            rep.undecided(rid, key, c['detail'], c['where'])
         else:
             rep.add(rid, key, False, c['where'], c['detail'] + ': one stack frame per nesting level of the input, a few 10 kB of source exhaust the stack',
                     data={'functions': c['names']})
